@@ -2,8 +2,8 @@
 //! GROUP: semaphore_shared
 //! MODULE: sync::semaphore::if_alloc::kani_verif_shared
 //! TAGS: C01 C05 C06 C17 C18
-//! N: quick=2 thorough=2
-//! UNWIND_EXTRA: 4
+//! N: quick=4 thorough=4
+//! UNWIND_EXTRA: 3
 //! KIND: harness (concrete queue shape and fairness, symbolic permits / request sizes / remaining state)
 //! BOUNDED: N acquire futures; every queue shape enumerated; permits and requests < 8
 use super::super::kani_verif::{apply, kit, queue_ok, shape, wake_rule, HasNode, Shape, N};
